@@ -29,7 +29,8 @@ namespace {
 
 // ---------------------------------------------------------------------- plan
 // cfg part: 0 = framing, 1 = requests.   cfg proto: 0 header-stream, 1 raw-stream, 2 packet
-// framing ops:  msg <kind 0 req,1 result,2 error,3 notify> <id> <seed>     raw <seed> <len>     hdr <magic_ok> <lenkind>     mut <pos> <val>     seg <size>
+// framing ops:  utf8 <which> <id>    a request whose parameter is a string that is not valid UTF-8: the encoder may refuse it (nothing is written), what it does write must decode to an equal value
+//               msg <kind 0 req,1 result,2 error,3 notify> <id> <seed>     raw <seed> <len>     hdr <magic_ok> <lenkind>     mut <pos> <val>     seg <size>
 // request ops:  call <dt_ms> <method 0 echo,1 later,2 twice,3 never,4 badid,5 unknown,6 fracid> <seed> <withcb> <delay_ms> <retry_on_timeout>     seg <size>
 void generate(sim::Rng &r, uint64_t seed, const std::string &tier, sim::Plan &p) {
   bool thorough = tier == "thorough";
@@ -45,6 +46,7 @@ void generate(sim::Rng &r, uint64_t seed, const std::string &tier, sim::Plan &p)
     for (int i = 0; i < n; ++i) {
       sim::Op op;
       unsigned x = (unsigned)r.below(100);
+      if (r.chance(60)) { sim::Op u; u.kind = "utf8"; u.a = {(long)r.below(6), r.range(1, 1000)}; p.ops.push_back(u); }
       if (proto == 1 && r.chance(200)) { sim::Op ws; ws.kind = "ws"; ws.a = {(long)r.below(5)}; p.ops.push_back(ws); }     // raw stream: blanks between two JSON texts
       if (!hostile || x < 55) {
         // now and then a message whose JSON text has a size around a power of two (buffer and length-field boundaries)
@@ -181,6 +183,20 @@ void run_framing(const sim::Plan &plan) {
         else { enc->sendRequest(0, method, payload); expect.push_back("REQ 0 " + method + " " + payload.dump()); }
         frames.push_back(last); wellformed.push_back(true);
         sim::relevant();
+      } else if (op.kind == "utf8") {
+        static const char *const BAD[] = {"\xe4\xb8", "caf\xe9", "\xff\xfe", "a\x80" "b", "\xc0\xaf", "\xed\xa0\x80"};
+        Json payload = std::string("x") + BAD[((op.arg(0) % 6) + 6) % 6] + "y";
+        int id = (int)std::max(1L, std::min(100000L, op.arg(1)));
+        last.clear();
+        bool threw = false;
+        try { enc->sendRequest(id, "m0", payload); } catch (const std::exception &) { threw = true; }
+        sim::probe(threw ? "invalid_utf8_refused" : "invalid_utf8_written");
+        if (threw && !last.empty()) sim::violation("C14/partial-frame-written", "the encoder refused a message (exception) after it had written a frame for it");
+        if (!threw && !last.empty()) {
+          // written: it has to come out as the value that went in (compared byte for byte in the canonical form, bad bytes kept)
+          frames.push_back(last); wellformed.push_back(true);
+          expect.push_back("REQ " + std::to_string(id) + " m0 " + payload.dump(-1, ' ', false, Json::error_handler_t::ignore));
+        }
       } else if (op.kind == "ws" && kind == 1) {
         // white space between JSON texts is not a message and must not disturb the ones around it
         static const char *const WS[] = {"\n", "\r\n", " ", " \t ", "\n\n  "};
